@@ -3,6 +3,7 @@ close reason; return value by ending class."""
 from __future__ import annotations
 
 import random
+import re
 
 from .. import appsim
 from .. import harness as H
@@ -186,7 +187,9 @@ def judge(res, W, run, sc, Ssim, tag, failure, second=False, dispatcher=None):
         if isinstance(failure, sched.WatchdogExpired):
             res.inconc(f"{sc['name']}: wall-clock watchdog")
             return False
-        bad("no-return", f"{type(failure).__name__}: {str(failure)[:200]}", how=type(failure).__name__)
+        # who was waiting for what when nothing could move any more (actor:kind of wait), e.g. "closer:lock+main:recv"
+        waits = sorted({f"{a}:{re.sub(r'[^a-z ].*', '', w).strip().replace(' ', '-')}" for a, w in re.findall(r"\('([\w-]+)', 'blocked', '([^']*)'\)", str(failure))})
+        bad("no-return", f"{type(failure).__name__}: {str(failure)[:200]}", how=type(failure).__name__, blocked_on="+".join(waits))
         return False
     trace = run.trace
     names = [n for _, n, _, _, _ in trace]
@@ -400,6 +403,10 @@ def run(res, tier, seed, shard, nshards):
              plan=[ok((0.5, "frames", text("m1")), (1.4, "frames", text("late1")), (2.1, "frames", text("late2")), (3.0, "frames", R.encode(R.PING, b"late")), answer_close=False)],
              ending="own-close", close_args=(None, None), run_kwargs={}, hooks={}, raising={}, callbacks=None, app_kwargs={}),
     ]
+    # the loop thread is blocked in the middle of a frame (the server sent half of it and fell silent) when close() comes from another thread
+    mute_scs.append(dict(name="xthread-close-loop-blocked-mid-frame", trigger="cross-thread-close",
+                         plan=[ok((0.5, "frames", text("m1") + R.encode(R.TEXT, b"never completed")[:9]), answer_close=False)], ending="own-close",
+                         close_args=(None, None), run_kwargs={}, hooks={}, raising={}, callbacks=None, app_kwargs={}))
     for sc in mute_scs:
         jobs.append(("plain-x", sc, None))
         jobs.append(("random2", sc, 0))
